@@ -2572,6 +2572,19 @@ func (db *DB) checkpointWithExecutor(ctx context.Context, mode string, exec *syn
 	if err != nil {
 		return false, err
 	} else if bytes.Equal(hdr, other) {
+		// Without the PASSIVE barrier nothing stops the application from
+		// committing between the copy above and the checkpoint, and the
+		// checkpoint backfills those frames into the database file. Copy them
+		// now: the replicated position must never lag behind what is already
+		// in the database file, or a snapshot taken at the older position
+		// would contain pages of later transactions.
+		if mode != CheckpointModePassive {
+			result, err = db.verifyAndSyncWithExecutor(ctx, true, exec, 0)
+			if err != nil {
+				return false, fmt.Errorf("cannot copy wal after checkpoint: %w", err)
+			}
+			exec.applySyncResult(result)
+		}
 		exec.state.syncedSinceCheckpoint = false
 		return false, nil
 	}
